@@ -33,7 +33,7 @@ func (m *M) constVal(k *ssa.Const) Value {
 			return VBool{m.c.Bool(constant.BoolVal(k.Value))}
 		}
 		if u.Info()&types.IsString != 0 {
-			return VStr{constant.StringVal(k.Value)}
+			return m.strConst(constant.StringVal(k.Value))
 		}
 		if w, _, ok := intWidth(t); ok {
 			if i, ok := constant.Int64Val(constant.ToInt(k.Value)); ok {
@@ -333,8 +333,10 @@ func (m *M) callVisible(p *path, fr *Frame, ci ssa.CallInstruction, d *DeferRec)
 	name := fn.String()
 	switch name {
 	case "(*sync.Mutex).Lock", "(*sync.Mutex).TryLock", "(*sync.RWMutex).Lock":
-		// Unlock is a left-mover: it never starts a new step (Lipton reduction)
-		return true
+		// Unlock is a left-mover: it never starts a new step (Lipton reduction).
+		// In a program that never has a second thread a lock operation cannot interact with
+		// anybody: it stays inside the macro-step (self-deadlock is raised by the intrinsic).
+		return !m.Single
 	}
 	if strings.HasSuffix(fnPkg(fn), "/vrt") && (fn.Name() == "Atomic" || fn.Name() == "Advance") {
 		return true
@@ -522,6 +524,36 @@ func (m *M) pathLess(a, b *path) bool {
 		if x.Fn != y.Fn {
 			return x.Fn.String() < y.Fn.String()
 		}
+		// loops containing both positions: the smaller iteration count is behind; compared
+		// outermost (largest body) first
+		li := m.loopInfo(x.Fn)
+		type cl struct{ h, size int }
+		var common []cl
+		for h, body := range li {
+			if body[x.Blk] && body[y.Blk] {
+				common = append(common, cl{h, len(body)})
+			}
+		}
+		sort.Slice(common, func(i, j int) bool {
+			if common[i].size != common[j].size {
+				return common[i].size > common[j].size
+			}
+			return common[i].h < common[j].h
+		})
+		decided := false
+		for _, c := range common {
+			if x.Loops[c.h] != y.Loops[c.h] {
+				return x.Loops[c.h] < y.Loops[c.h]
+			}
+		}
+		_ = decided
+		rx, ry := m.rpo(x.Fn)[x.Blk], m.rpo(y.Fn)[y.Blk]
+		if rx != ry {
+			return rx < ry
+		}
+		if x.Idx != y.Idx {
+			return x.Idx < y.Idx
+		}
 		lx, ly := 0, 0
 		for _, v := range x.Loops {
 			lx += v
@@ -531,13 +563,6 @@ func (m *M) pathLess(a, b *path) bool {
 		}
 		if lx != ly {
 			return lx < ly
-		}
-		rx, ry := m.rpo(x.Fn)[x.Blk], m.rpo(y.Fn)[y.Blk]
-		if rx != ry {
-			return rx < ry
-		}
-		if x.Idx != y.Idx {
-			return x.Idx < y.Idx
 		}
 	}
 	return len(fa) > len(fb) // deeper stack is behind
@@ -709,6 +734,36 @@ func (m *M) intBin(op token.Token, t types.Type, a, b *smt.Term) Value {
 	panic(unsupported("int binop " + op.String()))
 }
 
+// shift implements Go's << and >> (count >= width gives 0 / sign fill; negative count panics).
+func (m *M) shift(p *path, x *ssa.BinOp, a, cnt *smt.Term) Value {
+	c := m.c
+	_, asigned, _ := intWidth(x.X.Type())
+	_, csigned, _ := intWidth(x.Y.Type())
+	if csigned {
+		neg := c.Cmp("bvslt", cnt, c.BV(0, cnt.S))
+		m.violate(p, "panic", "negative-shift", x, neg)
+		p.g = c.And(p.g, c.Not(neg))
+	}
+	w := a.S
+	var amt *smt.Term
+	switch {
+	case cnt.S == w:
+		amt = cnt
+	case cnt.S < w:
+		amt = c.ZExt(int(w-cnt.S), cnt)
+	default:
+		big := c.Not(c.Cmp("bvult", cnt, c.BV(int64(w), cnt.S)))
+		amt = c.Ite(big, c.BV(int64(w), w), c.Extract(int(w)-1, 0, cnt))
+	}
+	switch {
+	case x.Op == token.SHL:
+		return VInt{c.BinBV("bvshl", a, amt)}
+	case asigned:
+		return VInt{c.BinBV("bvashr", a, amt)}
+	}
+	return VInt{c.BinBV("bvlshr", a, amt)}
+}
+
 // exec executes one instruction; returns false when the path stops or was forked away.
 func (m *M) exec(p *path, fr *Frame, instr ssa.Instruction, work *[]*path) bool {
 	c := m.c
@@ -745,9 +800,22 @@ func (m *M) exec(p *path, fr *Frame, instr ssa.Instruction, work *[]*path) bool 
 		case VInt:
 			bv := b.(VInt)
 			if x.Op == token.SHL || x.Op == token.SHR {
-				panic(unsupported("shift"))
+				m.set(p, fr, x, m.shift(p, x, av.T, bv.T))
+				break
 			}
 			m.set(p, fr, x, m.intBin(x.Op, x.X.Type(), av.T, bv.T))
+		case VStr:
+			bs := b.(VStr)
+			switch x.Op {
+			case token.ADD:
+				m.set(p, fr, x, m.strConcat(av, bs))
+			case token.EQL:
+				m.set(p, fr, x, VBool{m.strEq(av, bs)})
+			case token.NEQ:
+				m.set(p, fr, x, VBool{c.Not(m.strEq(av, bs))})
+			default:
+				panic(unsupported("string comparison " + x.Op.String()))
+			}
 		default:
 			eq := m.eqValues(a, b)
 			switch x.Op {
@@ -777,6 +845,29 @@ func (m *M) exec(p *path, fr *Frame, instr ssa.Instruction, work *[]*path) bool 
 	case *ssa.Field:
 		agg := m.get(p, fr, x.X).(VAgg)
 		m.set(p, fr, x, agg[x.Field])
+	case *ssa.Index:
+		idx := m.get(p, fr, x.Index).(VInt).T
+		if idx.S != 64 {
+			idx = c.ZExt(int(64-idx.S), idx)
+		}
+		switch xv := m.get(p, fr, x.X).(type) {
+		case VStr:
+			m.set(p, fr, x, m.strIndex(p, x, xv, idx))
+		case VAgg:
+			oob := c.Not(c.Cmp("bvult", idx, c.BV(int64(len(xv)), 64)))
+			m.violate(p, "panic", "index-out-of-range", x, oob)
+			p.g = c.And(p.g, c.Not(oob))
+			var res Value
+			for j := len(xv) - 1; j >= 0; j-- {
+				res = m.merge(c.Eq(idx, c.BV(int64(j), 64)), xv[j], res)
+			}
+			if res == nil {
+				res = m.zero(x.Type())
+			}
+			m.set(p, fr, x, res)
+		default:
+			panic(unsupported(fmt.Sprintf("index on %T", xv)))
+		}
 	case *ssa.MakeMap:
 		m.makeMap(p, fr, x)
 	case *ssa.MapUpdate:
@@ -822,6 +913,19 @@ func (m *M) exec(p *path, fr *Frame, instr ssa.Instruction, work *[]*path) bool 
 				default:
 					m.set(p, fr, x, VInt{c.ZExt(int(w-vi.T.S), vi.T)})
 				}
+				break
+			}
+		}
+		if vi, ok := v.(VInt); ok {
+			if b, ok := x.Type().Underlying().(*types.Basic); ok && b.Info()&types.IsString != 0 {
+				_, sgn, _ := intWidth(x.X.Type())
+				m.set(p, fr, x, m.runeToString(vi.T, sgn))
+				break
+			}
+		}
+		if vs, ok := v.(VStr); ok {
+			if b, ok := x.Type().Underlying().(*types.Basic); ok && b.Info()&types.IsString != 0 {
+				m.set(p, fr, x, vs)
 				break
 			}
 		}
@@ -1205,7 +1309,7 @@ func (m *M) builtin(p *path, fr *Frame, ci ssa.CallInstruction, name string, arg
 		case VSlice:
 			return m.done(p, fr, ci, isDefer, v.Len)
 		case VStr:
-			return m.done(p, fr, ci, isDefer, VInt{c.BV(int64(len(v.S)), 64)})
+			return m.done(p, fr, ci, isDefer, VInt{v.Len})
 		}
 	case "cap":
 		if v, ok := args[0].(VSlice); ok {
@@ -1231,6 +1335,7 @@ func (m *M) allocArray(key string, et types.Type, n int) Addr {
 	if n == 0 {
 		n = 1
 	}
+	key = fmt.Sprintf("%s#%d", key, n) // the same site may run with different sizes on different paths
 	a := m.alloc(key, types.NewArray(et, int64(n)))
 	m.arrLen[a] = n
 	return a
@@ -1297,6 +1402,11 @@ func (m *M) sliceOp(p *path, fr *Frame, x *ssa.Slice) {
 			return def
 		}
 		return m.get(p, fr, v).(VInt).T
+	}
+	if sv, ok := m.get(p, fr, x.X).(VStr); ok {
+		lo, hi := getI(x.Low, c.BV(0, 64)), getI(x.High, sv.Len)
+		m.set(p, fr, x, m.strSlice(p, x, sv, lo, hi))
+		return
 	}
 	switch xt := x.X.Type().Underlying().(type) {
 	case *types.Pointer: // slicing an array: p[lo:hi]
@@ -1629,7 +1739,7 @@ func (m *M) show(v Value) string {
 		if x.T.IsConst() {
 			return fmt.Sprintf("int(%d)", x.T.Signed())
 		}
-		return "int(sym)"
+		return "int(sym:" + x.T.Op + ")"
 	case VBool:
 		if x.T.IsConst() {
 			return fmt.Sprintf("bool(%v)", x.T.IsTrue())
